@@ -431,6 +431,11 @@ def solver_for(engine, pc, goal=None):
     s = z3.Solver()
     s.set("timeout", Z3_TIMEOUT_MS)
     s.set("rlimit", Z3_RLIMIT)
+    own = getattr(engine.contract, "budget_ms", None)
+    if own:
+        # a contract whose obligations all discharge in a fraction of a second may set a smaller budget (a
+        # multiple of what it needs): on a broken body the failing obligations then answer sooner
+        budget(s, own, wall=4)
     # (opt-in per contract: where the theory's facts are also needed by goals that do not mention it - e.g. a key
     #  known to be present because its count is positive - nothing is hidden)
     hide = [pre for pre in getattr(engine.contract, "local_theories", ()) if goal is not None and not _mentions(goal, pre)]
